@@ -196,6 +196,8 @@ def run(tier):
                 viol, st = check_signal_case(case)
                 for k, c in st.items():
                     dist["%s/%s" % (strategy, k)] += c
+                if not rep.cov["samples"] and st.get("periods"):
+                    rep.cov["samples"].append({"strategy": strategy, "scenario": svc.finish(case), "pattern": case["pattern"], "stats": dict(st)})
                 for cls, what in viol:
                     rep.add_violation(cls, what, {"unit": "signal", "case": case})
         for i in range(n):
